@@ -433,6 +433,9 @@ func (c *Ctx) WantSample() bool {
 // Rule states how cases are enumerated and what counts as non-trivial.
 func (c *Ctx) Rule(s string) { c.rule = s }
 
+// AddRule appends to the rule (a pass that comes on top of the check's own).
+func (c *Ctx) AddRule(s string) { c.rule += s }
+
 // Assume records an assumption of the check.
 func (c *Ctx) Assume(s ...string) { c.assume = append(c.assume, s...) }
 
